@@ -16,27 +16,34 @@ extern "C" void h_mem_write()
 {
   Memory m;
   m.endian = nondet_int() & 1;
-  unsigned a1 = nondet_uint(), a2 = nondet_uint(), a3 = nondet_uint();
+  unsigned a1 = nondet_uint(), a2 = nondet_uint(), q = nondet_uint();
   unsigned char d1 = nondet_uchar(), d2 = nondet_uchar();
   int l1 = nondet_int(), l2 = nondet_int();
   int use8 = nondet_int() & 1;
-  OBL(m.read8(a3) == 0 && m.read_debug(a3) == DL_EMPTY && !m.in_use(a3), "C05.mem: a fresh image is empty everywhere");
   m.write(a1, d1, l1);
   if (use8) { m.write8(a2, d2); } else { m.write(a2, d2, l2); }
-  OBL(m.read8(a2) == d2, "C05.mem: read8 returns the last byte written to the address");
-  if (!use8) OBL(m.read_debug(a2) == l2, "C05.mem: read_debug returns the marker written with the byte");
-  if (a1 != a2)
-  {
-    OBL(m.read8(a1) == d1 && m.read_debug(a1) == l1, "C05.mem: a write to another address leaves the byte and its marker unchanged");
-  }
-  else if (use8) OBL(m.read_debug(a2) == l1, "C05.mem: write8 keeps the marker of the byte");
-  if (a3 != a1 && a3 != a2)
-  {
-    OBL(m.read8(a3) == 0 && m.read_debug(a3) == DL_EMPTY, "C05.mem: addresses never written read as 0 / empty");
-  }
+  /* one arbitrary query address decides the whole byte map (witness projection) */
+  unsigned char want = (q == a2) ? d2 : (q == a1) ? d1 : 0;
+  int want_dl = (q == a2 && !use8) ? l2 : (q == a1) ? l1 : DL_EMPTY;
+  OBL(m.read8(q) == want, "C05.mem: read8 returns the last byte written to the address, 0 if never written");
+  OBL(m.read_debug(q) == want_dl, "C05.mem: read_debug returns the marker of the last write(), unchanged by write8(), empty if never written");
   OBL(m.low_address == (a1 < a2 ? a1 : a2) && m.high_address == (a1 > a2 ? a1 : a2), "C05.mem: low/high address are the min/max written address");
-  OBL(m.in_use(a1) && m.in_use(a2), "C05.mem: written addresses are in use");
   CANARY("h_mem_write end");
+}
+
+extern "C" void h_mem_write1()
+{
+  Memory m;
+  m.endian = nondet_int() & 1;
+  unsigned a1 = nondet_uint(), q = nondet_uint();
+  unsigned char d1 = nondet_uchar();
+  int l1 = nondet_int();
+  OBL(m.read8(q) == 0 && m.read_debug(q) == DL_EMPTY && !m.in_use(q), "C05.mem: a fresh image is empty everywhere");
+  m.write(a1, d1, l1);
+  OBL(m.read8(q) == ((q == a1) ? d1 : 0), "C05.mem: after one write, read8 returns the byte at its address and 0 elsewhere");
+  OBL(m.read_debug(q) == ((q == a1) ? l1 : DL_EMPTY), "C05.mem: after one write, read_debug returns the marker at its address and empty elsewhere");
+  OBL(m.low_address == a1 && m.high_address == a1 && m.in_use(a1), "C05.mem: low/high address equal the written address");
+  CANARY("h_mem_write1 end");
 }
 
 extern "C" void h_mem_w16()
